@@ -203,6 +203,15 @@ func (g *XGen) leaf() reflect.Type {
 				if r.Chance(1, 5) {
 					return reflect.TypeOf(NMap(nil))
 				}
+				if r.Chance(1, 6) {
+					// a composite key type that CONTAINS a substitutable type: both directions of a
+					// type substitution have to convert the keys (seeded C10-q)
+					k := reflect.Type(reflect.TypeOf(time.Duration(0)))
+					if r.Chance(1, 3) {
+						k = reflect.TypeOf(int64(0))
+					}
+					return reflect.MapOf(reflect.ArrayOf(1+r.Intn(2), k), g.basic())
+				}
 				return reflect.MapOf(reflect.TypeOf(""), g.basic())
 			}
 		case 7:
